@@ -240,4 +240,42 @@ def judge_programs(ck, progs, props, tag, describe=None, max_report=12, confirm=
                               "events": cevs[:40], "how": "bin/check %s --replay <this file>" % ck.prop})
     if died:
         ck.cov.setdefault("driver_died", []).extend(d["detail"][:300] for d in died[:5])
+        attribute_deaths(ck, progs, tag, describe, env_extra)
     return stats, died
+
+
+FATAL_MARKS = ("fatal error: runtime: out of memory", "fatal error: out of memory", "cannot allocate memory", "fatal error: stack overflow",
+               "runtime: goroutine stack exceeds", "fatal error: all goroutines are asleep", "fatal error: runtime: cannot allocate")
+
+
+def attribute_deaths(ck, progs, tag, describe, env_extra):
+    """A driver process that died is never silently ignored.  The case it was executing is re-run alone in a fresh process:
+    if the process dies again with a Go runtime fatal error (unbounded allocation, stack overflow, deadlock) the library
+    call kills the process on that input - a violation ('ProcessDies') with that case as replay; anything else
+    (not reproduced, killed from outside, a panic in the driver's own code) is harness trouble (exit 2)."""
+    for pi, p in enumerate(progs):
+        dd = [e for e in p.events if e.get("ev") == "DriverDied"]
+        if not dd:
+            continue
+        last = None
+        for e in p.events:
+            if e.get("ev") == "Reset":
+                last = e.get("case")
+        if last is None:
+            raise HarnessError("driver of %s died before its first case: %s" % (p.key, dd[0]["detail"][-600:]))
+        ci = int(str(last).split(":")[1])
+        case = p.cases[ci]
+        c2 = dict(case)
+        c2["id"] = "0:0"
+        evs = run_driver(ensure_built(p), {"cases": [c2]}, tag + "_death", timeout=900, env_extra=env_extra)
+        again = [e for e in evs if e.get("ev") == "DriverDied"]
+        detail = (again[0]["detail"] if again else "") + " || first: " + dd[0]["detail"]
+        if again and any(m in again[0]["detail"] for m in FATAL_MARKS) and any(m in dd[0]["detail"] for m in FATAL_MARKS):
+            key = describe(p, case) if describe else p.key
+            mark = [m for m in FATAL_MARKS if m in again[0]["detail"]][0]
+            ck.report(key, "ProcessDies", {"program": p.key, "source": p.src, "case": case, "conjuncts": ["ProcessDies"],
+                                           "detail": mark + " ... " + again[0]["detail"][-700:],
+                                           "how": "bin/check %s --replay <this file>" % ck.prop})
+        else:
+            raise HarnessError("driver of %s died on case %s and this is not a reproducible runtime fatal error of the process: %s"
+                               % (p.key, last, detail[-900:]))
